@@ -381,7 +381,7 @@ func main() {
 		cfgs = append(cfgs, cfg{k("rsapkcs3072"), protocol.X509KeyEnc, kex.ASYMKEX3072Suite, kex.A192GcmCipher, false, 3, false}, cfg{k("rsapss2048"), protocol.X5ChainKeyEnc, kex.DHKEXid14Suite, kex.CoseAes128CbcCipher, false, 3, false},
 			cfg{k("rsa2048restr"), protocol.X509KeyEnc, kex.ECDH256Suite, kex.CoseAes256CtrCipher, false, 3, false})
 	}
-	r.Rule("histories DI -> k x (hand-over to the next owner by extension/resale, credential written to and re-read from its blob encoding, TO2) explored with the deviation-bounded explorer: every HTTP exchange of DI and TO2 is a choice point {pass, request lost, response lost after the server processed it, response replaced by an FDO error, context cancelled} every store call of the serving side is a choice point {pass, fail}, every finalisation of the device's HMAC is a choice point {works, fails} for two hardware-style configurations, and before every TO2 exchange the owner's rendezvous policy callback may start returning other instructions (policy updated mid-session); bound 1 is complete for every configuration (thorough: bound 2 for two configurations). Oracles in every execution: after each successful DI/TO2 the stored voucher verifies against the credential the device now holds (header MAC under the device secret, manufacturer-key hash, GUID, rendezvous info - owners assign new rendezvous info, every second owner an empty list -, certificate hash) and the next hand-over + TO2 works; with reuse nothing changes; a TO2 that fails before the owner produced Done2 leaves the owner's voucher store byte-identical, returns no credential, and an honest retry succeeds; a lost Done2 is counted as the inherent commit window. distinct = distinct (outcome, fault trace).")
+	r.Rule("histories DI -> k x (hand-over to the next owner by extension/resale, credential written to and re-read from its blob encoding, TO2) explored with the deviation-bounded explorer: every HTTP exchange of DI and TO2 is a choice point {pass, request lost, response lost after the server processed it, response replaced by an FDO error, context cancelled} every store call of the serving side is a choice point {pass, fail}, every finalisation of the device's HMAC is a choice point {works, fails} for two hardware-style configurations, and before every TO2 exchange the owner's rendezvous policy callback may start returning other instructions (policy updated mid-session); bound 1 is complete for every configuration (thorough: bound 2 for two configurations). Oracles in every execution: after each successful DI/TO2 the stored voucher verifies against the credential the device now holds (header MAC under the device secret, manufacturer-key hash, GUID, rendezvous info - owners assign new rendezvous info, every second owner an empty list -, certificate hash) and the next hand-over + TO2 works; with reuse nothing changes; a TO2 that fails before the owner produced Done2 leaves the owner's voucher store byte-identical, returns no credential, and an honest retry succeeds; a lost Done2 is counted as the inherent commit window. Shared-owner layer: ONE owner service onboards three devices of mixed key types and key encodings; before every exchange of the observed device's TO2 a complete TO2 of one of the other devices may run (deviation each, bound 2 complete: two sessions at any two - or the same - points); afterwards every device's new credential and the voucher the owner stored for it agree and the observed device is accepted by the next owner after resale. distinct = distinct (outcome, fault trace).")
 	var wg sync.WaitGroup
 	sem := make(chan struct{}, 16)
 	for i, cf := range cfgs {
@@ -395,6 +395,15 @@ func main() {
 				bound = 2
 			}
 			exploreCfg(cf, bound)
+		}()
+	}
+	for _, sc := range sharedCfgs(r.Quick()) {
+		wg.Add(1)
+		sem <- struct{}{}
+		go func() {
+			defer wg.Done()
+			defer func() { <-sem }()
+			exploreShared(sc, 2)
 		}()
 	}
 	wg.Wait()
